@@ -25,13 +25,14 @@ def flags_of(shape):
     return set(shape[3].split("+")) if len(shape) > 3 else set()
 
 
-def mc(plan, cfg, timeout=600, workers=4):
+def mc(plan, cfg, timeout=600, workers=4, simulate=None):
     tmp = tlc.scratch_dir("c15-")
     try:
         p = os.path.join(tmp, "plans.json")
         with open(p, "w") as f:
             json.dump([plan], f)
-        return tlc.run_tlc("HGSched", cfg=cfg, env={"HG_PLANS": p}, workers=workers, check=False, timeout=timeout)
+        return tlc.run_tlc("HGSched", cfg=cfg, env={"HG_PLANS": p}, workers=workers, check=False, timeout=timeout, simulate=simulate,
+                           extra=("-depth", "600") if simulate else ())
     finally:
         shutil.rmtree(tmp, ignore_errors=True)
 
@@ -65,7 +66,14 @@ def run(tier, seed):
 
     def check_one(item):
         j, shape, k, plan = item
-        r = mc(plan, "HGSched_mc.cfg", timeout=900 if thorough else 240, workers=2)
+        try:
+            r = mc(plan, "HGSched_mc.cfg", timeout=420 if thorough else 240, workers=2)
+        except tlc.TLCError as e:
+            if "timeout" not in str(e):
+                raise
+            # the plan's interleavings do not fit the time box: random behaviours instead (stated in the evidence)
+            r = mc(plan, "HGSched_sim.cfg", timeout=300, workers=2, simulate="num=3000")
+            r.simulated = True
         live = None
         if len(plan["tasks"]) <= 12:
             live = mc(plan, "HGSched_live.cfg", timeout=240, workers=2)
@@ -78,6 +86,8 @@ def run(tier, seed):
         if live is not None and (live.violation or not live.ok):
             raise RuntimeError(f"HGSched liveness violated on shape {shape} k={k}: {live.violation}")
         ctx.add_tlc(result=r)
+        if getattr(r, "simulated", False):
+            ctx.bump("plans_simulated_not_exhausted")
         if live is not None:
             ctx.add_tlc(result=live)
             ctx.bump("liveness_checked_plans")
